@@ -160,4 +160,137 @@ theorem filter_abort_noread_e2e {p : Preamble} {recs pre : List Rec} {a : Rec} {
       · exact Or.inl ⟨hem.symm.trans hf.em, rfl, hf.ph⟩
   · exact ⟨c', fin, hrun, ⟨hfu.ev.1, hfu.ev.2⟩, hfu.sc, Or.inr ⟨hfu.nokeep, hfin, hfu.ph, hfu.log.trans hLf'⟩⟩
 
+/-- **The chain step** (KEEP_CONN): after the aborted Filter request of `filter_abort_noread_e2e` a
+closed-loop client sends the keep-alive requests `x :: xs` (`UReq.OK`): the abort record and `post` are
+swallowed by the next `parse_request` (`post` answered as idle noise), then each request is served
+exactly as alone (`UReq.Seg`). -/
+theorem filter_abort_noread_chain_e2e {p : Preamble} {recs pre : List Rec} {a : Rec} {post : List Rec}
+    {b mc : Nat} {st : ExitStatus} (x : UReq) (xs : List UReq) {t : Transport} {fuel : Nat}
+    (hwf : WellFormedPreamble p recs) (hrole : p.role = 3) (hk : p.flags.toNat % 2 = 1)
+    (hpairs : ∀ q ∈ p.pairs, (NV.enc q).length ≤ alignedBufsize b)
+    (hnoise : NoiseFits (alignedBufsize b) recs)
+    (hpre : ∀ r ∈ pre, StdinRec p.id r) (hpf : NoiseFits (alignedBufsize b) pre) (ha : IsAbort p.id a)
+    (hpost : ∀ r ∈ post, r.WF) (hpostf : NoiseFits (alignedBufsize b) post)
+    (hnb : ∀ r ∈ post, r.rtype.toNat ≠ RT.beginRequest)
+    (hok : ∀ y ∈ x :: xs, y.OK b)
+    (hin : t.input = serAll recs ++ (serAll (pre ++ [a]) ++ serAll post)) (hben : Ben t) (hem : t.endMode = .pend)
+    (hev : hsCount t.events = 0) (hfuel : t.rd.length + t.wr.length + 1 ≤ fuel)
+    (hsize : 6 * t.input.length + 26 ≤ 100000) :
+    ∃ c' A,
+      closedLoop fuel ((x :: xs).map UReq.wire)
+        (connS b mc t (([.ret st], true) :: (x :: xs).map UReq.handler)) 0 = (c', "STALL") ∧
+      SegsAll mc (x :: xs) A ∧
+      c'.env.tr.wlog = t.wlog ++ (owedPreamble p mc recs ++ owedActive p.id mc pre ++ endRequest p.id st ++
+        idleOwed mc post) ++ A ∧
+      hsCount c'.env.tr.events = 1 + (x :: xs).length ∧
+      startEvent p.request ∈ c'.env.tr.events ∧
+      (∀ y ∈ x :: xs, startEvent y.p.request ∈ c'.env.tr.events) ∧ c'.scripts = [] ∧
+      c'.env.tr.input = [] ∧
+      c'.phase = .parseReq (track (alignedBufsize b) mc (serAll ((x :: xs).getLast (by simp)).left)) .reading := by
+  have hid := (pid_of_wf hwf).2
+  have hwa := isAbort_wf ha hid
+  have hidle : ∀ e ∈ a :: post, IdleNoise e := by
+    intro e he
+    rcases List.mem_cons.1 he with rfl | he
+    · exact ⟨hwa, fun hx => absurd hx (by rw [ha.1]; decide)⟩
+    · exact idle_of_noBegin hpost hnb e he
+  have hfit : NoiseFits (alignedBufsize b) (a :: post) := by
+    intro e he hg
+    rcases List.mem_cons.1 he with rfl | he
+    · exact absurd hg.1 (by rw [ha.1]; decide)
+    · exact hpostf e he hg
+  have hlo : LeftOK (alignedBufsize b) (a :: post) := ⟨hidle, hfit⟩
+  have ok := faok_of (post := post) (mc := mc) (st := st) t.wlog 0 (((x :: xs).map (UReq.spec mc)).map RSpec.handler)
+    hwf hrole hpairs hnoise hpre hpf ha
+  have hstart : StartAt (alignedBufsize b) mc [] t.wlog
+      (([.ret st], true) :: ((x :: xs).map (UReq.spec mc)).map RSpec.handler) 0 [] (ans t)
+      (serAll recs ++ (serAll (pre ++ [a]) ++ serAll post))
+      (connS b mc t (([.ret st], true) :: ((x :: xs).map (UReq.spec mc)).map RSpec.handler)) :=
+    Or.inr ⟨rfl, rfl, hin, rfl, hben, rfl, rfl, rfl, hev, (fun _ hs => nomatch hs), rfl, hem, Nat.le_refl _⟩
+  have hleft0 : LeftOK (alignedBufsize b) [] := ⟨(fun _ he => nomatch he), (fun _ hr => nomatch hr)⟩
+  obtain ⟨c1, hrun1, hw1⟩ := serve_filterA_core ok hk (left := []) hleft0 (Z := x.wire) hidle
+    (goodNext_of_ok (hok x List.mem_cons_self) hlo) 0 fuel (by simp [idleOwed]; rfl) hstart (by unfold ans; omega)
+    (by show 6 * (serAll recs ++ (serAll (pre ++ [a]) ++ serAll post)).length + 26 ≤ _; rw [← hin]; exact hsize)
+  have hLf := lfa_eq (p := p) (recs := recs) (pre := pre) (a := a) (post := post) (b := b) (mc := mc) (st := st)
+    (L0 := t.wlog) (h := 0) (more := ((x :: xs).map (UReq.spec mc)).map RSpec.handler) [] (fun _ h => nomatch h)
+  have hLw : ((cfgFA p recs pre a post b mc st t.wlog 0 (((x :: xs).map (UReq.spec mc)).map RSpec.handler)).front []).LfA ++
+      idleOwed mc (a :: post) =
+      t.wlog ++ (owedPreamble p mc recs ++ owedActive p.id mc pre ++ endRequest p.id st ++ idleOwed mc post) := by
+    rw [hLf, idleOwed_cons, owed_idle_abort ha, List.nil_append]
+    simp [idleOwed, List.append_assoc]
+  have hw1' : Waiting (alignedBufsize b) mc (a :: post)
+      (t.wlog ++ (owedPreamble p mc recs ++ owedActive p.id mc pre ++ endRequest p.id st ++ idleOwed mc post))
+      (((x :: xs).map (UReq.spec mc)).map RSpec.handler) 1 [hsEvent p.request] (ans t) c1 := by
+    rw [← hLw]; exact hw1
+  obtain ⟨c', A, hrun, hseg, hw⟩ := chain_serves (alignedBufsize b) mc (serAll dummyRecs ++ [])
+    (xs.map (UReq.spec mc)) (UReq.spec mc x) (a :: post) _ 1 [hsEvent p.request] (ans t) (feed c1 x.wire) 1000 fuel
+    (hall_of_ok x xs hok) hlo (Or.inl ⟨c1, hw1', rfl⟩) (by unfold ans; omega)
+  have hrun' : closedLoop fuel ((x :: xs).map UReq.wire)
+      (connS b mc t (([.ret st], true) :: (x :: xs).map UReq.handler)) 0 = (c', "STALL") := by
+    have e : (x :: xs).map UReq.handler = ((x :: xs).map (UReq.spec mc)).map RSpec.handler := by
+      rw [List.map_map]; rfl
+    rw [e]
+    show closedLoop fuel (x.wire :: xs.map UReq.wire) _ 0 = _
+    rw [closedLoop, hrun1]
+    simp only [if_true]
+    rw [← hrun, List.map_map]; rfl
+  have hlast := lastLeft_specs mc x xs
+  refine ⟨c', A, hrun', segAll_specs mc (x :: xs) A hseg, hw.log, ?_, ?_, ?_, hw.sc, hw.inp, ?_⟩
+  · have := hw.hs; simpa [Nat.add_comm] using this
+  · exact hw.ev _ (mem_evsAfter _ _ _ (Or.inl List.mem_cons_self))
+  · intro y hy
+    exact hw.ev _ (mem_evsAfter _ _ _ (Or.inr ⟨UReq.spec mc y, List.mem_map_of_mem hy, rfl⟩))
+  · rw [← hlast]; exact hw.ph
+
+/-! ## Non-vacuity -/
+namespace Example
+open Fcgi.C01.Example Fcgi.C07E.Example Fcgi.C07U.Example
+
+/-- `AbortRequest(1)` -/
+def aR : Rec := { rtype := 2, id := 1, content := [], pad := [] }
+theorem aR_abort : IsAbort 1 aR := ⟨rfl, rfl, by decide, by decide⟩
+
+theorem fS_stdin : ∀ r ∈ fS, StdinRec 1 r := by
+  intro r hr
+  simp only [fS, List.mem_cons, List.not_mem_nil, or_false] at hr
+  rcases hr with rfl | rfl <;> exact ⟨⟨by decide, by decide, by decide⟩, Or.inr ⟨rfl, rfl⟩⟩
+
+theorem fD_wf : ∀ r ∈ fD, r.WF := streamRecs_wf (by decide) (by decide) fD_ok
+
+/-- cell (c)(ii), KEEP_CONN: the abort record sits between the Stdin terminator and the Data stream -/
+def faT : Transport :=
+  { input := serAll recsFK ++ (serAll (fS ++ [aR]) ++ serAll fD), endMode := .pend,
+    rd := [.n 24, .n 7, .pending, .n 9, .all], wr := [.n 5, .pending, .all], fl := [] }
+
+/-- `filter_abort_noread_e2e` applied to cell (c)(ii) (handler `[ret Complete(3)]`, KEEP_CONN).  Replayed
+(`# case c11f-keep-ii-Xcomplete:3-24,7,P,9,A`, model driver = crate): `… HS(3,1,-) HE(ok:complete:3) R64:7
+R57:P |1 R57:9 R58:54 W16:5 W11:P |2 W11:11 W32:32 R64:W STALL`: `writeable()` inside `close()` reads (one
+transient `Pending`), meets the abort record; the 16-byte bare `EndRequest(1, Complete(3))` is written
+(`01 03 00 01 00 08 00 00  00 00 00 03 00 00 00 00`) — no empty Stdout / Stderr records, status NOT
+`ABRT` —; the next `parse_request` swallows the abort record and answers the `GetValues` record of the
+abandoned Data stream (`W32`). -/
+example : ∃ c', runTask 20 (connS 64 10 faT [([.ret (.complete 3)], true)]) 0 none = (c', "STALL") ∧
+    c'.env.tr.wlog = [1, 3, 0, 1, 0, 8, 0, 0, 0, 0, 0, 3, 0, 0, 0, 0] ++ idleOwed 10 fD ∧
+    c'.phase = .parseReq (track 64 10 (aR.ser ++ serAll fD)) .reading ∧
+    hsCount c'.env.tr.events = 1 ∧ c'.env.tr.input = [] := by
+  obtain ⟨c', fin, hrun, ho⟩ := filter_abort_noread_e2e (p := preFK) (recs := recsFK) (pre := fS) (a := aR)
+    (post := fD) (b := 64) (mc := 10) (st := .complete 3) (more := []) (t := faT) (fuel := 20)
+    recsFK_wf rfl (fun q hq => by cases hq) (recsFK_fits _) fS_stdin (fS_fits _) aR_abort fD_wf fD_fits fD_noBegin
+    rfl ⟨by decide, by decide, rfl, by decide⟩ rfl (by decide) (by decide +kernel)
+  rcases ho.final with ⟨_, hlog, hf⟩ | ⟨h, _⟩
+  · rcases hf with ⟨h, _⟩ | ⟨_, hfin, hph, hin, _⟩
+    · exact absurd h (by decide)
+    · subst hfin
+      refine ⟨c', hrun, ?_, hph, ho.one_handler.1, hin⟩
+      rw [hlog]
+      show [] ++ (owedPreamble preFK 10 recsFK ++ owedActive 1 10 fS ++ endRequest 1 (.complete 3) ++ idleOwed 10 fD) = _
+      have h1 : owedPreamble preFK 10 recsFK = [] := by decide +kernel
+      have h2 : owedActive 1 10 fS = [] := by decide +kernel
+      rw [h1, h2]
+      simp only [List.nil_append]
+      rfl
+  · exact absurd h (by decide)
+
+end Example
+
 end Fcgi.C11F
